@@ -616,6 +616,10 @@ func c12Derived(c *Ctx) {
 		{"values/number-changed-in-loop", "令典 = 【“a” = 1，“b” = 2】\n以项遍历 典之所有值：\n\t以项（自增：10）\n输出 典\n", `dict["a"=num(1),"b"=num(2)]`},
 		{"values/dict-item-written", "令典 = 【“a” = 【“x” = 1】】\n令值 = 典之所有值\n值#1#“x” = 9\n输出 典\n", `dict["a"=dict["x"=num(1)]]`},
 		{"first-item/appended", "令集 = 【【1】，【2】】\n以集之首项（后增：5）\n以集之末项（后增：6）\n输出 集\n", "list[list[num(1),num(5)],list[num(2),num(6)]]|list[list[num(1)],list[num(2)]]"},
+		{"several-names/list-written-through-one", "令甲、乙 = 【1，2，3】\n甲#1 = 100\n以甲（后增：4）\n输出【甲，乙，乙之长度】\n", "list[list[num(100),num(2),num(3),num(4)],list[num(1),num(2),num(3)],num(3)]"},
+		{"several-names/empty-list", "令甲、乙 = 【】\n以甲（后增：“x”）\n输出【甲之长度，乙之长度】\n", "list[num(1),num(0)]"},
+		{"several-names/dictionary", "令丙、丁 = 【“a” = 1，“b” = 2】\n丙#“c” = 3\n丙#“a” = 10\n以丙（移除：“b”）\n输出【丙，丁，丁之所有索引】\n", `list[dict["a"=num(10),"c"=num(3)],dict["a"=num(1),"b"=num(2)],list[text("a"),text("b")]]`},
+		{"several-names/constant-and-block", "令：\n\t甲、乙 恒为 【1，2】\n以甲（左移）\n输出【甲，乙】\n", "list[list[num(2)],list[num(1),num(2)]]|error:*"},
 		{"keys/changed-in-loop", "令典 = 【“a” = 1，“b” = 2】\n令键 = 典之所有索引\n以键（后增：“c”）\n输出【典之所有索引，典之长度】\n", `list[list[text("a"),text("b")],num(2)]`},
 	}
 	reqs := []Req{}
